@@ -8,13 +8,15 @@ import CpModel.UrlEncBind
     `respond_catchall`);
   * binding answers 404 / 400 / 500 only; 400 needs a parameter that came with the body
     (`bindDecision_status`, `C03_bind_400_needs_body_key`);
-  * **never a 5xx from binding** is FALSE for the code as it is (`C03_bind_never_5xx_full_false`, four
-    witnesses: the key `self` sent to a method, a required keyword-only parameter left out, a
-    positional-only parameter named by keyword, a plain function as handler); it is proved for the
-    signatures `test_callable_spec` was written for — a bound method (or callable object) without
-    positional-only and without required keyword-only parameters, and a request that does not use the
-    name of `self` as a key (`C03_bind_never_5xx_partial`): there `test_callable_spec` is COMPLETE, every
-    TypeError of the call is turned into 404 or 400.
+  * **never a 5xx from binding** is FALSE for the code, repaired or not (`C03_bind_never_5xx_full_false`;
+    witnesses: a required keyword-only parameter left out, a positional-only parameter named by keyword,
+    a plain function as handler; before repair 172eec3 also the key `self` sent to a method —
+    `C03_bind_self_key_repaired` shows that class gone: 404 / 400 now); it is proved for the signatures
+    `test_callable_spec` was written for — a bound method (or callable object) without positional-only and
+    without required keyword-only parameters (`C03_bind_never_5xx_partial`, for the repaired code with NO
+    condition on the request's keys; for the unrepaired code the request must not use the name of `self`):
+    there `test_callable_spec` is COMPLETE, every TypeError of the call is turned into 404 or 400.
+  All theorems carry the flag `fix` (is the bound first argument checked?), probed on the live function.
 -/
 namespace CpProofs.C03
 open CpModel.UrlEnc
@@ -25,8 +27,8 @@ open CpModel.UrlEnc
 def CatchAll (s : Sig) : Prop :=
   s.params = [] ∧ s.kwonly = [] ∧ s.varargs = true ∧ s.varkw = true ∧ ∀ n, s.self? ≠ some (n, false)
 
-theorem C03_bind_catchall (s : Sig) (h : CatchAll s) (nargs : Nat) (kwargs : List (Text × Bool)) :
-    bindDecision s nargs kwargs = .call := by
+theorem C03_bind_catchall (fix : Bool) (s : Sig) (h : CatchAll s) (nargs : Nat) (kwargs : List (Text × Bool)) :
+    bindDecision fix s nargs kwargs = .call := by
   obtain ⟨hp, hk, hva, hvk, hself⟩ := h
   have : pyCallOk s nargs (kwargs.map (·.1)) = true := by
     simp only [pyCallOk, hp, hk, hva, List.length_nil, Bool.or_true, List.zipIdx_nil, List.all_nil,
@@ -43,11 +45,12 @@ example : CatchAll { self? := none, params := [], posOnly := 0, defaults := 0, v
 
 /-- **A `**kwargs` handler is called with exactly the parameters**: whatever `handleX` hands over
     arrives; binding adds no refusal of its own. -/
-theorem respond_catchall (r : ReqX) (s : Sig) (h : CatchAll s) (nargs : Nat) : respond r s nargs = handleX r := by
+theorem respond_catchall (fix : Bool) (r : ReqX) (s : Sig) (h : CatchAll s) (nargs : Nat) :
+    respond fix r s nargs = handleX r := by
   unfold respond
   cases handleX r with
   | status c => rfl
-  | handler kw => simp [C03_bind_catchall s h, lateKwargs]
+  | handler kw => simp [C03_bind_catchall fix s h, lateKwargs]
 
 /-- Late binding: what a tool assigns between dispatch and the call reaches the handler — the last
     assignment to a key wins over whatever the request carried, every other key is untouched. -/
@@ -71,31 +74,32 @@ theorem lookup_lateKwargs (params : Params) (late : List (Text × Text)) (k : Te
       · simp [hk]
       · simp [hk]
 
-theorem respond_catchall_late (r : ReqX) (s : Sig) (h : CatchAll s) (nargs : Nat) (late : List (Text × Text))
-    (kw : Params) (hx : handleX r = .handler kw) : respond r s nargs late = .handler (lateKwargs kw late) := by
+theorem respond_catchall_late (fix : Bool) (r : ReqX) (s : Sig) (h : CatchAll s) (nargs : Nat)
+    (late : List (Text × Text)) (kw : Params) (hx : handleX r = .handler kw) :
+    respond fix r s nargs late = .handler (lateKwargs kw late) := by
   unfold respond
-  simp [hx, C03_bind_catchall s h]
+  simp [hx, C03_bind_catchall fix s h]
 
 /-! ## status codes -/
 
-theorem specCheck_codes (s : Sig) (nargs : Nat) (kwargs : List (Text × Bool)) (c : Nat)
-    (h : specCheck s nargs kwargs = some c) : c = 404 ∨ c = 400 := by
+theorem specCheck_codes (fix : Bool) (s : Sig) (nargs : Nat) (kwargs : List (Text × Bool)) (c : Nat)
+    (h : specCheck fix s nargs kwargs = some c) : c = 404 ∨ c = 400 := by
   unfold specCheck at h
   simp only [] at h
   repeat' split at h
   all_goals (simp at h; try omega)
 
-theorem bindDecision_status (s : Sig) (nargs : Nat) (kwargs : List (Text × Bool)) (c : Nat)
-    (h : bindDecision s nargs kwargs = .status c) : c = 404 ∨ c = 400 ∨ c = 500 := by
+theorem bindDecision_status (fix : Bool) (s : Sig) (nargs : Nat) (kwargs : List (Text × Bool)) (c : Nat)
+    (h : bindDecision fix s nargs kwargs = .status c) : c = 404 ∨ c = 400 ∨ c = 500 := by
   unfold bindDecision at h
   split at h
   · cases h
-  · cases hs : specCheck s nargs kwargs with
+  · cases hs : specCheck fix s nargs kwargs with
     | none => rw [hs] at h; simp only [Decision.status.injEq] at h; omega
     | some c' =>
       rw [hs] at h
       simp only [Decision.status.injEq] at h
-      have := specCheck_codes s nargs kwargs c' hs
+      have := specCheck_codes fix s nargs kwargs c' hs
       omega
 
 theorem contains_map_fst (kwargs : List (Text × Bool)) (k : Text) (h : (kwargs.map (·.1)).contains k = true) :
@@ -106,13 +110,13 @@ theorem contains_map_fst (kwargs : List (Text × Bool)) (k : Text) (h : (kwargs.
 
 /-- **400 from binding needs a body parameter**: when no key came with the body, a binding failure is a
     404 (or the 500 of the cases below), never a 400. -/
-theorem C03_bind_400_needs_body_key (s : Sig) (nargs : Nat) (kwargs : List (Text × Bool))
-    (hq : ∀ kb ∈ kwargs, kb.2 = false) : bindDecision s nargs kwargs ≠ .status 400 := by
+theorem C03_bind_400_needs_body_key (fix : Bool) (s : Sig) (nargs : Nat) (kwargs : List (Text × Bool))
+    (hq : ∀ kb ∈ kwargs, kb.2 = false) : bindDecision fix s nargs kwargs ≠ .status 400 := by
   intro h
   unfold bindDecision at h
   split at h
   · cases h
-  · cases hs : specCheck s nargs kwargs with
+  · cases hs : specCheck fix s nargs kwargs with
     | none => rw [hs] at h; cases h
     | some c =>
       rw [hs] at h
@@ -127,37 +131,55 @@ theorem C03_bind_400_needs_body_key (s : Sig) (nargs : Nat) (kwargs : List (Text
         · split at hs
           · cases hs
           · split at hs
-            · rename_i hm
+            · -- the bound first argument named by a key: that key came with the query string
+              rename_i hsel
               split at hs
               · cases hs
               · rename_i hnq
-                -- some name in `multiple` is a key; it is a query-string key
-                simp only [Bool.not_eq_true', List.isEmpty_eq_false_iff_exists_mem] at hm
-                obtain ⟨m, hmm⟩ := hm
-                simp only [List.mem_map, List.mem_filter, Bool.and_eq_true, decide_eq_true_eq] at hmm
-                obtain ⟨ni, ⟨_, _, hc⟩, rfl⟩ := hmm
-                obtain ⟨kb, hkb, e⟩ := contains_map_fst kwargs ni.1 hc
-                apply hnq
-                simp only [List.any_eq_true, List.mem_map, List.mem_filter, Bool.and_eq_true, decide_eq_true_eq,
-                  Bool.not_eq_eq_eq_not, Bool.not_true]
-                exact ⟨ni.1, ⟨ni, ⟨by assumption, by assumption, hc⟩, rfl⟩, kb, hkb, e, hq kb hkb⟩
+                exfalso
+                unfold selfKeyed at hsel
+                unfold selfKeyFromQs at hnq
+                cases hself : s.self? with
+                | none => simp [hself] at hsel
+                | some sn =>
+                  simp only [hself, Bool.and_eq_true] at hsel hnq
+                  obtain ⟨kb, hkb, e⟩ := contains_map_fst kwargs sn.1 hsel.2
+                  apply hnq
+                  simp only [List.any_eq_true, Bool.and_eq_true, decide_eq_true_eq, Bool.not_eq_eq_eq_not,
+                    Bool.not_true]
+                  exact ⟨kb, hkb, e, hq kb hkb⟩
             · split at hs
-              · split at hs
+              · rename_i hm
+                split at hs
                 · cases hs
+                · rename_i hnq
+                  -- some name in `multiple` is a key; it is a query-string key
+                  simp only [Bool.not_eq_true', List.isEmpty_eq_false_iff_exists_mem] at hm
+                  obtain ⟨m, hmm⟩ := hm
+                  simp only [List.mem_map, List.mem_filter, Bool.and_eq_true, decide_eq_true_eq] at hmm
+                  obtain ⟨ni, ⟨_, _, hc⟩, rfl⟩ := hmm
+                  obtain ⟨kb, hkb, e⟩ := contains_map_fst kwargs ni.1 hc
+                  apply hnq
+                  simp only [List.any_eq_true, List.mem_map, List.mem_filter, Bool.and_eq_true, decide_eq_true_eq,
+                    Bool.not_eq_eq_eq_not, Bool.not_true]
+                  exact ⟨ni.1, ⟨ni, ⟨by assumption, by assumption, hc⟩, rfl⟩, kb, hkb, e, hq kb hkb⟩
+              · split at hs
                 · split at hs
-                  · rename_i hb
-                    simp only [List.any_eq_true, Bool.and_eq_true, decide_eq_true_eq] at hb
-                    obtain ⟨k, _, kb, hkb, _, hb2⟩ := hb
-                    rw [hq kb hkb] at hb2
-                    cases hb2
                   · cases hs
-              · cases hs
+                  · split at hs
+                    · rename_i hb
+                      simp only [List.any_eq_true, Bool.and_eq_true, decide_eq_true_eq] at hb
+                      obtain ⟨k, _, kb, hkb, _, hb2⟩ := hb
+                      rw [hq kb hkb] at hb2
+                      cases hb2
+                    · cases hs
+                · cases hs
 
 /-! ## never a 5xx from binding? -/
 
 /-- The statement one would like: binding never ends in a server error. -/
-def C03_bind_never_5xx_full : Prop :=
-  ∀ (s : Sig) (nargs : Nat) (kwargs : List (Text × Bool)), bindDecision s nargs kwargs ≠ .status 500
+def C03_bind_never_5xx_full (fix : Bool) : Prop :=
+  ∀ (s : Sig) (nargs : Nat) (kwargs : List (Text × Bool)), bindDecision fix s nargs kwargs ≠ .status 500
 
 def sigMethodKw : Sig :=       -- def index(self, **kw)
   { self? := some ("self".toList, false), params := [], posOnly := 0, defaults := 0, varargs := false,
@@ -174,19 +196,28 @@ def sigPlainDefaults : Sig :=  -- def index(a=1, b=2)
   { self? := none, params := ["a".toList, "b".toList], posOnly := 0, defaults := 2, varargs := false, kwonly := [],
     varkw := false }
 
-/-- The code as it is answers 500 in (at least) these situations:
-    `?self=1` to `def index(self, **kw)`; no parameter at all to `def index(self, *, a)`;
-    `?a=1` to `def index(self, a, /)`; no parameter to the plain function `def index(a)`;
-    `?c=1` to the plain function `def index(a=1, b=2)` (IndexError inside `test_callable_spec`). -/
-theorem C03_bind_5xx_witnesses :
-    bindDecision sigMethodKw 0 [("self".toList, false)] = .status 500 ∧
-    bindDecision sigKwOnly 0 [] = .status 500 ∧
-    bindDecision sigPosOnly 0 [("a".toList, false)] = .status 500 ∧
-    bindDecision sigPlain 0 [] = .status 500 ∧
-    bindDecision sigPlainDefaults 0 [("c".toList, false)] = .status 500 := by decide
+/-- The code, repaired (172eec3) or not, answers 500 in (at least) these situations:
+    no parameter at all to `def index(self, *, a)`; `?a=1` to `def index(self, a, /)`; no parameter to the
+    plain function `def index(a)`; `?c=1` to the plain function `def index(a=1, b=2)` (IndexError inside
+    `test_callable_spec`). -/
+theorem C03_bind_5xx_witnesses (fix : Bool) :
+    bindDecision fix sigKwOnly 0 [] = .status 500 ∧
+    bindDecision fix sigPosOnly 0 [("a".toList, false)] = .status 500 ∧
+    bindDecision fix sigPlain 0 [] = .status 500 ∧
+    bindDecision fix sigPlainDefaults 0 [("c".toList, false)] = .status 500 := by
+  cases fix <;> decide
 
-theorem C03_bind_never_5xx_full_false : ¬ C03_bind_never_5xx_full :=
-  fun h => h sigMethodKw 0 [("self".toList, false)] C03_bind_5xx_witnesses.1
+/-- The witness class the repair removed: `?self=1` to `def index(self, **kw)` was a 500; the repaired
+    `test_callable_spec` answers 404 when the key came with the query string, 400 when it came with the
+    body (also next to other parameters). -/
+theorem C03_bind_self_key_repaired :
+    bindDecision false sigMethodKw 0 [("self".toList, false)] = .status 500 ∧
+    bindDecision true sigMethodKw 0 [("self".toList, false)] = .status 404 ∧
+    bindDecision true sigMethodKw 0 [("self".toList, true)] = .status 400 ∧
+    bindDecision true sigMethodKw 0 [("a".toList, true), ("self".toList, false)] = .status 404 := by decide
+
+theorem C03_bind_never_5xx_full_false (fix : Bool) : ¬ C03_bind_never_5xx_full fix :=
+  fun h => h sigKwOnly 0 [] (C03_bind_5xx_witnesses fix).1
 
 /-- The signatures `test_callable_spec` understands: a bound first parameter, no positional-only
     parameters, every keyword-only parameter has a default, `defaults` fit. -/
@@ -235,20 +266,21 @@ theorem specArgs_bound (s : Sig) (h : s.self?.isSome) : specArgs s = s.params :=
 /-- **`C03_bind_never_5xx_partial`.**  For a classic signature and a request that does not use the name
     of the bound parameter as a key, `test_callable_spec` is complete: whenever the call raises TypeError
     it raises HTTPError 404 or 400, so binding never ends in a 500. -/
-theorem C03_bind_never_5xx_partial (s : Sig) (hc : Classic s) (nargs : Nat) (kwargs : List (Text × Bool))
-    (hself : ∀ kb ∈ kwargs, s.self? ≠ some (kb.1, false)) :
-    bindDecision s nargs kwargs ≠ .status 500 := by
+theorem C03_bind_never_5xx_partial (fix : Bool) (s : Sig) (hc : Classic s) (nargs : Nat)
+    (kwargs : List (Text × Bool))
+    (hself : fix = true ∨ ∀ kb ∈ kwargs, s.self? ≠ some (kb.1, false)) :
+    bindDecision fix s nargs kwargs ≠ .status 500 := by
   obtain ⟨hb, hpo, hko, hd⟩ := hc
   intro h
   unfold bindDecision at h
   split at h
   · cases h
   · rename_i hcall
-    cases hs : specCheck s nargs kwargs with
+    cases hs : specCheck fix s nargs kwargs with
     | some c =>
       rw [hs] at h
       simp only [Decision.status.injEq] at h
-      have := specCheck_codes s nargs kwargs c hs
+      have := specCheck_codes fix s nargs kwargs c hs
       omega
     | none =>
       -- `test_callable_spec` found nothing: then the call cannot have failed
@@ -265,102 +297,118 @@ theorem C03_bind_never_5xx_partial (s : Sig) (hc : Classic s) (nargs : Nat) (kwa
         · rename_i hmany
           split at hs
           · split at hs <;> cases hs
-          · rename_i hmult
-            have hextra : s.varkw = true ∨
-                ((kwargs.map (·.1)).filter (fun k => !s.params.contains k)).isEmpty = true := by
-              split at hs
-              · rename_i hx
-                exfalso
-                simp only [Bool.and_eq_true, Bool.not_eq_eq_eq_not, Bool.not_true,
-                  List.isEmpty_eq_false_iff_exists_mem] at hx
-                obtain ⟨_, e, he⟩ := hx
-                have hek : e ∈ kwargs.map (·.1) := (List.mem_filter.1 he).1
-                simp only [List.mem_map] at hek
-                obtain ⟨kb, hkb, rfl⟩ := hek
+          · rename_i hnsel
+            split at hs
+            · split at hs <;> cases hs
+            · rename_i hmult
+              have hextra : s.varkw = true ∨
+                  ((kwargs.map (·.1)).filter (fun k => !s.params.contains k)).isEmpty = true := by
                 split at hs
-                · cases hs
-                · rename_i hnq
+                · rename_i hx
+                  exfalso
+                  simp only [Bool.and_eq_true, Bool.not_eq_eq_eq_not, Bool.not_true,
+                    List.isEmpty_eq_false_iff_exists_mem] at hx
+                  obtain ⟨_, e, he⟩ := hx
+                  have hek : e ∈ kwargs.map (·.1) := (List.mem_filter.1 he).1
+                  simp only [List.mem_map] at hek
+                  obtain ⟨kb, hkb, rfl⟩ := hek
                   split at hs
                   · cases hs
-                  · rename_i hnb
-                    cases hb2 : kb.2 with
-                    | false =>
-                      apply hnq
-                      simp only [List.any_eq_true, Bool.and_eq_true, decide_eq_true_eq, Bool.not_eq_eq_eq_not,
-                        Bool.not_true]
-                      exact ⟨kb.1, he, kb, hkb, rfl, hb2⟩
-                    | true =>
-                      apply hnb
-                      simp only [List.any_eq_true, Bool.and_eq_true, decide_eq_true_eq]
-                      exact ⟨kb.1, he, kb, hkb, rfl, hb2⟩
-              · rename_i hx
-                simp only [Bool.and_eq_true, Bool.not_eq_eq_eq_not, Bool.not_true, not_and,
-                  Bool.not_eq_false] at hx
-                cases hv : s.varkw with
-                | true => exact Or.inl rfl
-                | false => exact Or.inr (hx hv)
-            -- assemble `pyCallOk`
-            simp only [pyCallOk, Bool.and_eq_true, Bool.or_eq_true, decide_eq_true_eq, List.all_eq_true]
-            refine ⟨⟨⟨?_, ?_⟩, ?_⟩, ?_⟩
-            · -- not too many positional arguments
-              simp only [Bool.and_eq_true, Bool.not_eq_eq_eq_not, Bool.not_true, decide_eq_true_eq, not_and] at hmany
-              cases hv : s.varargs with
-              | true => exact Or.inr rfl
-              | false =>
-                left
-                have := hmany hv
-                omega
-            · -- every keyword finds its place
-              intro key hkey
-              simp only [List.mem_map] at hkey
-              obtain ⟨kb, hkb, rfl⟩ := hkey
-              unfold kwOk
-              cases hi : idxOf? s.params kb.1 with
-              | some i =>
-                simp only [hpo, Nat.not_lt_zero, if_false, Bool.not_eq_eq_eq_not, Bool.not_true,
-                  decide_eq_false_iff_not]
-                intro hlt
-                apply hmult
-                simp only [Bool.not_eq_true', List.isEmpty_eq_false_iff_exists_mem]
-                refine ⟨kb.1, ?_⟩
-                simp only [List.mem_map, List.mem_filter, Bool.and_eq_true, decide_eq_true_eq]
-                have hm := idxOf?_some_mem s.params kb.1 i 0 hi
-                refine ⟨(kb.1, i), ⟨by simpa using hm, hlt, ?_⟩, rfl⟩
-                simp only [List.contains_eq_mem, List.mem_map, decide_eq_true_eq]
-                exact ⟨kb, hkb, rfl⟩
-              | none =>
-                simp only []
-                split
-                · rfl
-                · split
-                  · rename_i hs'
-                    exact absurd hs' (hself kb hkb)
-                  · rcases hextra with hv | he
-                    · exact hv
-                    · exfalso
-                      have : kb.1 ∈ (kwargs.map (·.1)).filter (fun k => !s.params.contains k) := by
-                        simp only [List.mem_filter, List.mem_map, Bool.not_eq_eq_eq_not, Bool.not_true]
-                        exact ⟨⟨kb, hkb, rfl⟩, idxOf?_none hi⟩
-                      rw [List.isEmpty_iff] at he
-                      rw [he] at this
-                      cases this
-            · -- every positional parameter is filled
-              intro ni hni
-              simp only [List.any_eq_true, Bool.and_eq_true, Bool.not_eq_eq_eq_not, Bool.not_true,
-                decide_eq_false_iff_not, not_exists, not_and] at hmiss
-              unfold posFilled
-              simp only [hpo, Nat.zero_le, decide_true, Bool.true_and, Bool.or_eq_true, decide_eq_true_eq]
-              by_cases h1 : ni.2 < nargs
-              · exact Or.inl (Or.inl h1)
-              · cases h2 : (kwargs.map (·.1)).contains ni.1 with
-                | true => exact Or.inl (Or.inr rfl)
+                  · rename_i hnq
+                    split at hs
+                    · cases hs
+                    · rename_i hnb
+                      cases hb2 : kb.2 with
+                      | false =>
+                        apply hnq
+                        simp only [List.any_eq_true, Bool.and_eq_true, decide_eq_true_eq, Bool.not_eq_eq_eq_not,
+                          Bool.not_true]
+                        exact ⟨kb.1, he, kb, hkb, rfl, hb2⟩
+                      | true =>
+                        apply hnb
+                        simp only [List.any_eq_true, Bool.and_eq_true, decide_eq_true_eq]
+                        exact ⟨kb.1, he, kb, hkb, rfl, hb2⟩
+                · rename_i hx
+                  simp only [Bool.and_eq_true, Bool.not_eq_eq_eq_not, Bool.not_true, not_and,
+                    Bool.not_eq_false] at hx
+                  cases hv : s.varkw with
+                  | true => exact Or.inl rfl
+                  | false => exact Or.inr (hx hv)
+              -- assemble `pyCallOk`
+              simp only [pyCallOk, Bool.and_eq_true, Bool.or_eq_true, decide_eq_true_eq, List.all_eq_true]
+              refine ⟨⟨⟨?_, ?_⟩, ?_⟩, ?_⟩
+              · -- not too many positional arguments
+                simp only [Bool.and_eq_true, Bool.not_eq_eq_eq_not, Bool.not_true, decide_eq_true_eq, not_and] at hmany
+                cases hv : s.varargs with
+                | true => exact Or.inr rfl
                 | false =>
-                  right
-                  have := hmiss ni hni ⟨h1, h2⟩
-                  simpa using this
-            · -- keyword-only parameters all have defaults
-              intro kd hkd
-              simp [hko kd hkd]
+                  left
+                  have := hmany hv
+                  omega
+              · -- every keyword finds its place
+                intro key hkey
+                simp only [List.mem_map] at hkey
+                obtain ⟨kb, hkb, rfl⟩ := hkey
+                unfold kwOk
+                cases hi : idxOf? s.params kb.1 with
+                | some i =>
+                  simp only [hpo, Nat.not_lt_zero, if_false, Bool.not_eq_eq_eq_not, Bool.not_true,
+                    decide_eq_false_iff_not]
+                  intro hlt
+                  apply hmult
+                  simp only [Bool.not_eq_true', List.isEmpty_eq_false_iff_exists_mem]
+                  refine ⟨kb.1, ?_⟩
+                  simp only [List.mem_map, List.mem_filter, Bool.and_eq_true, decide_eq_true_eq]
+                  have hm := idxOf?_some_mem s.params kb.1 i 0 hi
+                  refine ⟨(kb.1, i), ⟨by simpa using hm, hlt, ?_⟩, rfl⟩
+                  simp only [List.contains_eq_mem, List.mem_map, decide_eq_true_eq]
+                  exact ⟨kb, hkb, rfl⟩
+                | none =>
+                  simp only []
+                  split
+                  · rfl
+                  · split
+                    · rename_i hs'
+                      rcases hself with hfix | hself
+                      · -- repaired: the bound-argument check did not fire, so the key is not its name
+                        exfalso
+                        apply hnsel
+                        have hc : (kwargs.map (·.1)).contains kb.1 = true := by
+                          simp only [List.contains_eq_mem, List.mem_map, decide_eq_true_eq]
+                          exact ⟨kb, hkb, rfl⟩
+                        have hk : selfKeyed s (kwargs.map (·.1)) = true := by
+                          unfold selfKeyed
+                          rw [hs']
+                          exact hc
+                        rw [hfix, hk]
+                        rfl
+                      · exact absurd hs' (hself kb hkb)
+                    · rcases hextra with hv | he
+                      · exact hv
+                      · exfalso
+                        have : kb.1 ∈ (kwargs.map (·.1)).filter (fun k => !s.params.contains k) := by
+                          simp only [List.mem_filter, List.mem_map, Bool.not_eq_eq_eq_not, Bool.not_true]
+                          exact ⟨⟨kb, hkb, rfl⟩, idxOf?_none hi⟩
+                        rw [List.isEmpty_iff] at he
+                        rw [he] at this
+                        cases this
+              · -- every positional parameter is filled
+                intro ni hni
+                simp only [List.any_eq_true, Bool.and_eq_true, Bool.not_eq_eq_eq_not, Bool.not_true,
+                  decide_eq_false_iff_not, not_exists, not_and] at hmiss
+                unfold posFilled
+                simp only [hpo, Nat.zero_le, decide_true, Bool.true_and, Bool.or_eq_true, decide_eq_true_eq]
+                by_cases h1 : ni.2 < nargs
+                · exact Or.inl (Or.inl h1)
+                · cases h2 : (kwargs.map (·.1)).contains ni.1 with
+                  | true => exact Or.inl (Or.inr rfl)
+                  | false =>
+                    right
+                    have := hmiss ni hni ⟨h1, h2⟩
+                    simpa using this
+              · -- keyword-only parameters all have defaults
+                intro kd hkd
+                simp [hko kd hkd]
 
 /-- Non-vacuity: `def index(self, a, b=2, *args, k=1, **kw)` is classic; `def index(self, a, b=2)` answers
     404 to a missing `a`, to an unknown query key and to a surplus path atom, 400 to an unknown body key. -/
@@ -376,22 +424,22 @@ def sigAB : Sig :=             -- def index(self, a, b=2)
   { self? := some ("self".toList, false), params := ["a".toList, "b".toList], posOnly := 0, defaults := 1,
     varargs := false, kwonly := [], varkw := false }
 
-example :
-    bindDecision sigAB 0 [] = .status 404 ∧
-    bindDecision sigAB 0 [("a".toList, false)] = .call ∧
-    bindDecision sigAB 0 [("a".toList, true)] = .call ∧
-    bindDecision sigAB 0 [("a".toList, false), ("c".toList, false)] = .status 404 ∧
-    bindDecision sigAB 0 [("a".toList, false), ("c".toList, true)] = .status 400 ∧
-    bindDecision sigAB 3 [] = .status 404 ∧
-    bindDecision sigAB 1 [("a".toList, false)] = .status 404 ∧
-    bindDecision sigAB 1 [("a".toList, true)] = .status 400 ∧
-    bindDecision sigAB 1 [("b".toList, true)] = .call := by decide
+example (fix : Bool) :
+    bindDecision fix sigAB 0 [] = .status 404 ∧
+    bindDecision fix sigAB 0 [("a".toList, false)] = .call ∧
+    bindDecision fix sigAB 0 [("a".toList, true)] = .call ∧
+    bindDecision fix sigAB 0 [("a".toList, false), ("c".toList, false)] = .status 404 ∧
+    bindDecision fix sigAB 0 [("a".toList, false), ("c".toList, true)] = .status 400 ∧
+    bindDecision fix sigAB 3 [] = .status 404 ∧
+    bindDecision fix sigAB 1 [("a".toList, false)] = .status 404 ∧
+    bindDecision fix sigAB 1 [("a".toList, true)] = .status 400 ∧
+    bindDecision fix sigAB 1 [("b".toList, true)] = .call := by cases fix <;> decide
 
 /-! ## the whole request -/
 
 /-- Statuses of a whole request as far as parameters are concerned. -/
-theorem respond_status (r : ReqX) (s : Sig) (nargs : Nat) (late : List (Text × Text)) (c : Nat)
-    (h : respond r s nargs late = .status c) :
+theorem respond_status (fix : Bool) (r : ReqX) (s : Sig) (nargs : Nat) (late : List (Text × Text)) (c : Nat)
+    (h : respond fix r s nargs late = .status c) :
     c = 404 ∨ c = 411 ∨ c = 400 ∨ c = 500 := by
   unfold respond at h
   cases hx : handleX r with
@@ -409,13 +457,13 @@ theorem respond_status (r : ReqX) (s : Sig) (nargs : Nat) (late : List (Text × 
     · rename_i c' hb
       simp only [Outcome.status.injEq] at h
       subst h
-      have := bindDecision_status _ _ _ _ hb
+      have := bindDecision_status _ _ _ _ _ hb
       omega
 
 /-- When the handler is called it is called with what `handleX` computed — binding never alters,
     drops or adds a parameter. -/
-theorem respond_handler (r : ReqX) (s : Sig) (nargs : Nat) (late : List (Text × Text)) (kw : Params)
-    (h : respond r s nargs late = .handler kw) :
+theorem respond_handler (fix : Bool) (r : ReqX) (s : Sig) (nargs : Nat) (late : List (Text × Text)) (kw : Params)
+    (h : respond fix r s nargs late = .handler kw) :
     ∃ kw0, handleX r = .handler kw0 ∧ kw = lateKwargs kw0 late := by
   unfold respond at h
   cases hx : handleX r with
